@@ -176,7 +176,6 @@ def decl_contract(cls: str, method: str):
         args = {p: c.sym(p) for p in params}
         for f in S.reach_def(ct, cls, Sx):
             c.requires(f)
-        c.requires(S.float_range(Sx), "float-repr")
         for t in args.values():
             c.requires(S.float_range(t), "float-repr")
             # type invariant of inputs: every schema object handed in is itself a DSL-built schema
